@@ -294,7 +294,7 @@ def split_from_model(m):
     return None
 
 
-CONTRACTS = {'IndexUtils.splitColumns': dict(check=check_split, gen=gen_split)}
+CONTRACTS = {'splitColumns/%d' % k: dict(check=check_split, gen=gen_split) for k in (1, 2, 3, 4)}
 BOUNDED = [('bounded/index', 'index tree == trie of the entries read by the makeindex syntax, pages merged per path in document order, levels in collation order; groups and columns partition the top level',
             'random documents: 1-12 entries over 13 keys, 1-3 levels, sort@display, quoted !, |textbf |see |( formats, index-columns 1-4', bounded_index),
            ('bounded/formats', 'every page format goes through \\printindex and merges with the plain entry', '7 formats x with/without makeidx', bounded_formats),
